@@ -5,7 +5,7 @@ SPEC = {
     'claim': 'every history of Set/Apply/Lookup/Cancel/Reset up to depth 5 (quick, one builder; thorough: two builders up to depth 5 and one builder at depth 6) on 16 variable types, by pointer and by name, leaves the variable equal to the model value after every step',
     'note': 'bounded depth; types limited to the 16 listed; two-builder histories whose expected value depends on the reading of "first mock in that builder" are unjudged',
     'jobs': [{'bin': 'c08', 'shards': 16, 'env': {'GOMAXPROCS': '2', 'GODEBUG': 'clobberfree=1'}, 'max_restarts': 20, 'budget': {'thorough': 3000}}],
-    'rule': 'engine H: every history of length <= d over {Set1,Set2,Apply3,Lookup,Cancel,Reset,SetWrongType,ForeignWrite} (quick d=5 one builder; thorough d=5 with the builder-bound operations x2 builders, plus d=6 one builder) '
+    'rule': 'engine H: every history of length <= d over {Set1,Set2,Apply3,Lookup,Cancel,Reset,SetWrongType,ForeignWrite,ApplyNext (callbacks of one factory returning alternating values)} (quick d=5 one builder; thorough d=5 with the builder-bound operations x2 builders, plus d=6 one builder) '
             'for 20 variables (16 types; 4 whose original is a heap object referenced only by the variable, for which a forced GC is an additional operation, at most once per history) x {by pointer, by name}; replayed from scratch on the real library and on the '
             '"value before the first mock in that builder" model, variable read (accessor + direct) after every step. '
             'distinct_nontrivial = distinct (variable, addressing, history) containing at least one Set/Apply.',
